@@ -690,22 +690,16 @@ impl<'a> Interp<'a> {
                 if matches!(r, Err(Ctl::Unsupported(_)) | Err(Ctl::Abort(..))) {
                     return r;
                 }
-                match &r {
-                    Err(Ctl::Break) | Err(Ctl::Continue) => self.event("jump_out_of_try"),
-                    Err(Ctl::Return(_)) => {
-                        if depth_inside > 1 {
-                            self.event("return_out_of_nested_try");
-                        }
-                    }
-                    _ => {}
-                }
+                let _ = depth_inside;
                 let mut via_exception = false;
                 if let Err(Ctl::Throw(v)) = &r {
                     via_exception = true;
                     if let Some((_name, cb)) = catch {
                         let scope = Scope::new(Some(env.clone()));
                         scope.declare(v.clone());
-                        via_exception = false;
+                        // while the catch block runs, a handler routes every exit from it through the
+                        // statement's finally block: the block counts as the inside of a try statement
+                        self.try_depth.set(depth_inside);
                         let mut cr = Ok(());
                         for s in cb {
                             cr = self.exec(s, &scope, module);
@@ -713,9 +707,12 @@ impl<'a> Interp<'a> {
                                 break;
                             }
                         }
-                        if cr.is_err() && finally.is_some() {
-                            self.event("abrupt_exit_from_catch_with_finally");
+                        self.try_depth.set(depth_inside - 1);
+                        if matches!(cr, Err(Ctl::Unsupported(_)) | Err(Ctl::Abort(..))) {
+                            return cr;
                         }
+
+                        via_exception = matches!(cr, Err(Ctl::Throw(_)));
                         r = cr;
                     }
                 }
